@@ -28,25 +28,37 @@ SPEC = {
                 'honest readers return only true finalized messages of the queried chain (reader_honest); message hasher is a function of the message'],
     'assumptions': ['at most f_k oracles outside the honest set per chain (f_k = agreed fChain value)',
                     'liveness (C04_liveness): same-view honest quorum in every non-retry selecting / building round, messages pending, selected intervals readable; RMN-retry rounds are not counted'],
-    'modelled': 'ValidateMerkleRootsState, the off-ramp, the composition consensus (C01) + root observation (C02) + report building (C03); '
-                'libocr itself (leader election, attestation, transmission protocol) is not modelled',
-    'level_text': 'Proof: 15 Coq theorems — transmit-time re-check forces start = then-current cursor for every report and destination state; no stale sends; '
-                  'the off-ramp keeps every chain contiguous under ANY sequence of landing reports (induction over the report list); honest observations carry the '
-                  'true root (composition with C02); with <= f_k Byzantine per chain every agreed root is the true root (composition with C01); report roots are '
-                  'agreed roots (C03 model). Liveness (full, Proofs/CommitLiveP.v): C04_honest_quorum_consensus (a same-view quorum — 2f+1 distinct reporters of v, at most f '
-                  'reporting anything else, f = f of the chain the data is read from: f_k for merkle root / on-ramp latest, f_dest for off-ramp next; the f values agreed at 2F+1 — '
-                  'makes the C01 consensus succeed with v as the agreed value); C04_liveness (from EVERY previous outcome, over every history whose selecting / building rounds '
-                  'contain such a quorum with messages pending and the selected interval readable: within (max+2)+2 non-retry rounds a ReportGenerated outcome contains a root of '
-                  'chain k over [off, min(on, off+n-1)] — C03_recovery composed with the select / build rounds, RMN bundle covered, cursor allowed to move; C04_liveness_fixed_cursor '
-                  'for the unchanged-cursor reading); C04_liveness_true_root (that root is the true merkle root, composition with C04_agreed_root_true); C04_liveness_nonvacuous '
-                  '(4 oracles, one Byzantine: hypotheses met, bound (max+2)+2 reached at max = 0); C04_liveness_unfixed_refuted (F26, repaired by fixes/F26.patch: with the off-ramp '
-                  'numbers agreed at the source chain f — all 7 oracles honest, identical views, 4 destination readers, f_dest = 1, f_k = 2 — no interval of chain k was ever selected; '
-                  'the repaired processor selects it). Correspondence: 4, 7 or 10 real plugin instances (per-history DON shape: N, F, per-chain f and reader sets, colluding Byzantine oracles) run whole histories (observation -> validation -> outcome -> reports -> accept -> '
-                  'transmit -> land; f_dest < f_src in the 7- and 10-oracle histories, f_dest > f_k in class fdest2) and every transmit verdict and final off-ramp state is judged against the model and the '
-                  'executable property; the round function the liveness theorems are stated over is the one judged by sink C04_round.',
-    'level_note': 'Liveness hypotheses (all in the statement, each granted by "2f+1 honest readers of the chain concerned share the view"): every non-retry selecting / building round contains a '
-                  'same-view honest quorum (a round whose leader withholds or sets the retry flag outside the building state has none), chain k has pending messages, selected intervals are readable '
-                  'by the quorum, waiting rounds need nothing. Not proved: a bound on RMN-retry rounds (they reproduce the previous outcome; an RMN that never answers stalls the building state), and '
-                  'anything after ReportGenerated (attestation, transmission, landing are libocr / chain). The bound is reached only at max = 0 (max+3 otherwise). '
-                  'Trusted: Coq kernel, model, off-ramp contract semantics, libocr contract. No axioms.',
+    'modelled': 'Hand model (Model/Transmit.v, CommitSys.v, CommitLive.v with CommitSM.v, CommitConsensus.v, CommitMerkle.v): ValidateMerkleRootsState / '
+                "ShouldTransmitAcceptedReport's roots check, the off-ramp commit entry point (apply_roots / land), true_root over an append-only log, "
+                "commit.Plugin.Outcome's merkle-root wiring as the composition consensus (C01) + root observation (C02) + state machine and report building (C03). "
+                'Translated from source per run: the leaf functions of C01, C02, C03 (thresholds, validator chain-set loops, Limit, msgsCoverRange, computeMerkleRoot '
+                'prefix, NextState). Inputs of the model: reader answers, decoded attributed observations, query, landing schedule. libocr itself (leader election, '
+                'attestation, transmission protocol) and the real off-ramp contract are not modelled',
+    'level_text': 'Proof: 35 closed Coq theorems. 15 property theorems. Safety: the transmit-time re-check forces start = then-current cursor for every report and '
+                  'destination state and blocks on a reader failure (C04_transmit_starts_at_cursor, _reader_failure, C04_no_stale_send); the off-ramp keeps every chain '
+                  'contiguous under ANY sequence of landing reports (C04_committed_contiguous); honest observations carry the true root and with <= f_k Byzantine oracles '
+                  'per chain every agreed root is the true root (C04_honest_root_true, C04_true_root_unique, C04_agreed_root_true: composition with C01 and C02); report '
+                  'roots are agreed roots (C04_report_roots_are_agreed). Liveness is proved IN FULL over histories (CommitLive): C04_honest_quorum_consensus (2f+1 '
+                  'same-view reporters, f of the chain the value is read from, make the C01 consensus succeed with that value), C04_liveness (from EVERY previous '
+                  'outcome, over every history whose selecting / building rounds contain such a quorum with messages pending and readable, some outcome within (max+2)+2 '
+                  'non-retry rounds is a generated report with a root of chain k over [off, min(on, off+n-1)]), _fixed_cursor, _true_root, _nonvacuous (4 oracles, one '
+                  'Byzantine, bound reached). Unrepaired code refuted: C04_liveness_unfixed_refuted (F26, repaired in /repo: an all-honest legal configuration never '
+                  "selected an interval). Judge soundness (20 C04_judge_*): for each of the 4 sinks the executable property accepts the model's output and implies the "
+                  'Prop-level clause; the liveness theorems are restated over any chain of judged implementation outcomes (C04_judge_liveness*). Correspondence, every '
+                  'run: 4, 7 or 10 real long-lived commit.Plugin instances over one world run 18..36-round histories (observation -> validation -> outcome -> reports -> '
+                  'accept -> transmit -> land; colluding Byzantine oracles, f_dest != f_k, reader storms, lost / delayed / duplicated transmissions); every transmit '
+                  "verdict, the final off-ramp content and every round's (previous outcome, query, observations) -> outcome (plugin wiring, sink C04_round) are judged; "
+                  'ValidateMerkleRootsState at function level. Translation tie: the 23 theorems of C01_gen.v, C02_gen.v, C03_gen.v are re-checked. Outside: RMN-retry '
+                  'rounds are unbounded (a silent RMN stalls building); attestation, transmission and landing are libocr / chain.',
+    'level_note': 'Trusted: Coq kernel, hand-written model and theorem statements, differential harness, leaf translator. Specific: the off-ramp contract is a MODEL '
+                  '(root accepted iff min = stored next and min <= max, cursor := max+1, a failing root reverts the report); libocr gives every honest oracle the same '
+                  'validated observation list and hands only attested reports to ShouldAccept / ShouldTransmit; honest readers return only true finalised messages of the '
+                  'queried chain; the ground-truth root bit of a case is computed by the harness. Safety assumes at most f_k oracles outside the honest set per chain. '
+                  'Liveness hypotheses are all in the statement (what "2f+1 honest readers of the chain share the view" grants): every non-retry selecting / building '
+                  'round contains a same-view honest quorum, chain k has pending messages, selected intervals are readable; not proved: a bound on RMN-retry rounds, '
+                  'anything after ReportGenerated. The bound is reached only at max = 0. Verdicts 0 / error of the transmit gate are compared with the model only. No '
+                  'axioms.',
+    'technique': 'Coq theorems (induction over report lists and round histories; system composition CommitSys / CommitLive of the C01, C02, C03 models plus an off-ramp '
+                 'model); DON simulation of real long-lived commit plugins judged per verdict, per round and per history by a proved judge; leaf functions of C01-C03 '
+                 're-translated from Go',
 }
